@@ -411,6 +411,20 @@ def both_operands_used(prog, R):
             raise AnalysisBroken("binary %s not found" % qn)
         f = fs[0]
         ps = [p["n"] for p in f["params"]]
+        # locals that merely rename an operand (`const auto &lhs = a;`)
+        alias = {}
+        for d in walk(f["body"]):
+            if d.get("k") == "decl":
+                for v in d.get("v", ()):
+                    i = v.get("i")
+                    while i is not None and i.get("k") in ("cast", "ctor") \
+                            and len([a_ for a_ in i.get("a", ())
+                                     if a_.get("k") != "defarg"]) == 1:
+                        i = [a_ for a_ in i["a"]
+                             if a_.get("k") != "defarg"][0]
+                    if i is not None and i.get("k") == "ref" \
+                            and i.get("d") == "param" and i.get("n") in ps:
+                        alias[v["n"]] = i["n"]
 
         def uses(e):
             """operands read in e outside pure kind tests"""
@@ -424,6 +438,9 @@ def both_operands_used(prog, R):
                 if x.get("k") == "ref" and x.get("d") == "param" \
                         and x.get("n") in ps and not in_test:
                     out.add(x["n"])
+                if x.get("k") == "ref" and x.get("d") == "local" \
+                        and x.get("n") in alias and not in_test:
+                    out.add(alias[x["n"]])
                 for v in x.values():
                     if isinstance(v, dict):
                         rec(v, in_test)
